@@ -13,6 +13,7 @@ import (
 	"net/http"
 	"os"
 	"strings"
+	"time"
 
 	"verifharness/internal/cases"
 	"verifharness/internal/cq"
@@ -324,6 +325,7 @@ func main() {
 	dir, seed, thorough := cases.Args()
 	s := cases.New("C16", dir, "LW.Corr.C16", "every case is one HTTP request through the real handler with its own configuration table; distinct by (table, body)")
 	s.ShardSize = 24
+	s.Watchdog(3 * time.Second)
 	g := &G{s: s, r: cq.NewRNG(seed)}
 
 	// ---- corpus: the parameters of the repository's own test-suite (incl. the witness of the known finding) ----
